@@ -189,6 +189,51 @@ def skip(seq):
     return False
 
 
+def double_restore_family():
+    """structured longer histories: draws, save, draws, restore, draws,
+    restore (the same saved state a second time, also into another stream
+    object), draws - all combinations of short draw blocks"""
+    from pydsol.core.streams import MersenneTwister as MT
+    D = [("f",), ("b",), ("i", 0, 9)]
+    blocks1 = [(a,) for a in D] + [(a, b) for a in D for b in D]
+    blocks0 = [()] + blocks1
+    n = 0
+    bad = []
+    for pre in blocks1:
+        for mid in blocks0:
+            for post1 in blocks1:
+                for post2 in blocks1:
+                    seq = pre + (("save",),) + mid + (("restore",),) + \
+                        post1 + (("restore",),) + post2
+                    n += 1
+                    for b in check_seq(MT, 101, seq):
+                        bad.append(("double-restore:" + b[0], list(seq), b))
+                    # the same saved state restored into another stream
+                    x = MT(101)
+                    for op in pre:
+                        draw(x, op)
+                    st = x.save_state()
+                    want = [draw(x, op) for op in post1 + post2]
+                    y = MT(7)
+                    z = MT(9)
+                    try:
+                        y.restore_state(st)
+                        got1 = [draw(y, op) for op in post1]
+                        z.restore_state(st)
+                        got_z = [draw(z, op) for op in post1 + post2]
+                        got1 += [draw(y, op) for op in post2]
+                    except Exception as ex:  # noqa
+                        bad.append(("restore-into-other-stream-raised",
+                                    list(seq), type(ex).__name__))
+                        continue
+                    if got1 != want or got_z != want:
+                        bad.append(("restore-into-other-stream", list(seq),
+                                    (got1, got_z, want)))
+                    if len(bad) > 200:
+                        return n, bad
+    return n, bad
+
+
 def scripted_range():
     """own the uniform: replace the wrapped generator by a scripted one (only
     if the documented wrapping attribute exists)"""
@@ -197,21 +242,18 @@ def scripted_range():
     if not hasattr(s, "_random") or not hasattr(s._random, "random"):
         return 0, [], False
 
-    class Scripted:
+    import random as _random
+
+    class Scripted(_random.Random):
+        """a real random.Random whose random() is scripted; everything else
+        (getrandbits, state handling) keeps working"""
+
         def __init__(self, u):
+            super().__init__(12345)
             self.u = u
 
         def random(self):
             return self.u
-
-        def seed(self, *a):
-            pass
-
-        def getstate(self):
-            return None
-
-        def setstate(self, st):
-            pass
     n = 0
     bad = []
     ranges = RANGES + [(0, 2 ** 53 + 2), (0, 2 ** 54 + 5), (0, 2 ** 64),
@@ -234,10 +276,15 @@ def scripted_range():
     for u in us:
         n += 1
         s._random = Scripted(u)
-        f = s.next_float()
+        try:
+            f = s.next_float()
+            b = s.next_bool()
+        except Exception as ex:  # noqa
+            bad.append(("draw-raised", u, type(ex).__name__))
+            continue
         if not (0.0 <= f < 1.0):
             bad.append(("next_float-out-of-range", u, f))
-        if type(s.next_bool()) is not bool:
+        if type(b) is not bool:
             bad.append(("next_bool-type", u))
     return n, bad, True
 
@@ -261,6 +308,12 @@ def run(ctx):
                           rank=len(rep["ops"]))
     ctx.part("operation sequences", executed=total, depth=L,
              alphabet=len(alphabet()), start_seeds=len(starts))
+    n, bad = double_restore_family()
+    for b in bad:
+        ctx.violation("C12:%s" % b[0], "stream seeded 101, ops %s: %s" % (
+            b[1], b[2]), {"start": 101, "ops": b[1]}, rank=len(b[1]))
+    ctx.part("double-restore histories (length 6-10)", sequences=n)
+    total += n
     n, bad, ok = scripted_range()
     ctx.part("scripted uniforms x ranges", cases=n, applied=ok,
              violations=len(bad))
